@@ -168,12 +168,23 @@ def x2(prog: Program, chk: Check) -> None:
         for (nid, x) in calls:
             val = x.args[-1]
             gcall = _getter_call(du, nid, val, getter)
-            ok = gcall is not None
+            gcalls = [gcall] if gcall is not None else []
+            if gcall is None and isinstance(_peel_conversions(val), ast.Name):
+                # fetched in front of the loop and again at the end of its body (a loop with
+                # the test on the fetched value): every definition must be such a fetch
+                ds_ = du.reaching(nid, _peel_conversions(val).id)
+                got_ = [_getter_call(du, d_.node, d_.value, getter) if d_.value is not None and not d_.sel
+                        else None for d_ in ds_]
+                if ds_ and None not in got_:
+                    gcalls = got_
+            ok = bool(gcalls)
             idx_ok = True
             if ok and setter != "set_initial_tensor":
-                idx_ok = norm(gcall.args[0]) == norm(x.args[0]) and \
+                # same step: the index expression is the same, and the definitions of the index
+                # that reach the store are exactly those that reach the fetches
+                idx_ok = all(norm(g_.args[0]) == norm(x.args[0]) for g_ in gcalls) and \
                     {d.id for d in du.reaching(nid, norm(x.args[0]))} == \
-                    {d.id for d in du.reaching(du.node_of(gcall), norm(gcall.args[0]))}
+                    {d.id for g_ in gcalls for d in du.reaching(du.node_of(g_), norm(g_.args[0]))}
             chk.add("X2", im, f"import: {setter}({', '.join(norm(a) for a in x.args)})",
                     ok and idx_ok,
                     f"from pt_file.{getter}" if ok and idx_ok else
